@@ -10,12 +10,18 @@
    (b) empty operands: closed form, transposition, transparency of empty collection members (F8:
        refuted for the pinned code, proved for the repaired code): full proofs;
    (c) two non-empty operands: the model IS the reference semantics de9im_ref (exact arrangement +
-       definitional locate); what is proved about it is listed below; that one witness per cell
-       decides every point of the cell (sufficiency) is NOT proved - the theorems concerned are
-       named ..._partial and the global claim rests on the correspondence run. *)
+       definitional locate).  SUFFICIENCY of the witnesses is now proved (Proofs/Planar_slab*.v):
+       every point of Q^2 has a witness with the same location w.r.t. every geometry of the
+       arrangement (hypothesis: polygon rings are closed vertex lists), hence every entry of the
+       model's matrix is characterised in terms of ALL points of the plane (section (c'), below).
+       The older ..._partial theorems are kept.  What remains unformalised is only the passage from
+       the combinatorial characterisation (only vertices / a non-vertex point / a point off every
+       segment) to topological dimension, and - as before - the overlay engine of the Go code, which
+       is tied to this model by the correspondence run. *)
 From Coq Require Import QArith List Bool ZArith NArith.
 From SF Require Import Base.GeomAST Base.QKernel Base.Planar Proofs.Planar_proofs
-  Model.RelatePatterns Model.Relate Proofs.RelateMatch_proofs Proofs.Relate_proofs.
+  Model.RelatePatterns Model.Relate Proofs.RelateMatch_proofs Proofs.Relate_proofs
+  Proofs.Planar_slab_base Proofs.Planar_slab Proofs.Planar_slab_dim Proofs.Relate_slab_proofs.
 Import ListNotations.
 Local Close Scope Q_scope.
 Local Open Scope nat_scope.
@@ -280,3 +286,104 @@ Example ex_matcher :
   relate_matches (map N.of_nat [50;49;50;49;48;49;50;49;50]) (map N.of_nat [84;42;84;42;42;42;84;42;120]) = RMErr /\
   relate_matches (map N.of_nat [50;49;50]) (map N.of_nat [84;42;84;42;42;42;84;42;42]) = RMErr.
 Proof. vm_compute. repeat split; reflexivity. Qed.
+
+(* ------------------------------------------------------------------ (c') sufficiency of the witnesses *)
+(* S3, uniform: for ANY finite set of segments L and isolated points P, every point p of Q^2 has a
+   witness w (of the list the oracle enumerates) such that locate g p = locate g w for EVERY geometry g
+   whose segments are in L and points in P and whose polygon rings are closed.  No other validity is
+   assumed: rings may self-intersect, members may overlap. *)
+Theorem slab_witnesses_sufficient : forall (L : list seg) (P : list pt) (p : pt),
+  exists w d, In (w, d) (witnesses L P) /\
+    forall g, covers_geom L P g -> rings_closed g -> locate g p = locate g w.
+Proof. exact witnesses_sufficient. Qed.
+Print Assumptions slab_witnesses_sufficient.
+
+(* S1 (cell constancy), in the two forms the construction uses: two points of the same open slab that
+   compare alike with every spanning segment, or two points of the same vertical line that compare alike
+   with every ordinate of the line, cannot be told apart by any segment or vertex of the arrangement ... *)
+Theorem cell_constancy : forall (L : list seg) (P : list pt),
+  (forall x0 x1 p w, In (x0, x1) (consec (events (vertex_set L P))) ->
+     (x0 < fst p < x1)%Q -> (x0 < fst w < x1)%Q ->
+     (forall e, In e L -> spans x0 x1 e -> (snd p ?= y_at e (fst p))%Q = (snd w ?= y_at e (fst w))%Q) ->
+     same_cell L (vertex_set L P) p w) /\
+  (forall x p w, (fst p == x)%Q -> (fst w == x)%Q ->
+     (forall y, In y (line_ordinates L (vertex_set L P) x) -> (snd p ?= y)%Q = (snd w ?= y)%Q) ->
+     same_cell L (vertex_set L P) p w) /\
+  (* ... and then have the same location w.r.t. every geometry of the arrangement *)
+  (forall g p w, covers_geom L P g -> rings_closed g -> same_cell L (vertex_set L P) p w ->
+     locate g p = locate g w).
+Proof.
+  exact (fun L P => conj (fun x0 x1 p w H => slab_same_cell L P x0 x1 H p w)
+                   (conj (event_same_cell L P) (fun g p w => locate_same_cell L P g p w))).
+Qed.
+Print Assumptions cell_constancy.
+
+(* the parity fact underneath: for a closed ring and a point not on it, the crossing parity of the
+   horizontal ray (used by locate) equals that of the vertical ray (constant on slab cells) *)
+Theorem closed_ring_parity_hv : forall (ps : list pt) (p : pt),
+  pts_closed ps = true -> on_edges (segs_of_pts ps) p = false ->
+  edges_parity (segs_of_pts ps) p = vparity (segs_of_pts ps) p.
+Proof. exact closed_ring_parity. Qed.
+Print Assumptions closed_ring_parity_hv.
+
+(* S2 (coverage): every point of the plane is in the same cell as some enumerated witness *)
+Theorem witness_coverage : forall (L : list seg) (P : list pt) (p : pt),
+  exists w d, In (w, d) (witnesses L P) /\ same_cell L (vertex_set L P) p w.
+Proof. exact witness_cover. Qed.
+Print Assumptions witness_coverage.
+
+(* the reference matrix: an entry is set iff SOME POINT OF THE PLANE has that pair of locations *)
+Theorem de9im_ref_sufficient : forall (a b : geom) (la lb : loc),
+  rings_closed a -> rings_closed b ->
+  (mget (de9im_ref a b) la lb <> DF <-> exists p, locate a p = la /\ locate b p = lb).
+Proof. exact Planar_slab.de9im_ref_sufficient. Qed.
+Print Assumptions de9im_ref_sufficient.
+
+(* and its value is pinned down by all points of the plane: with S = { p | locate a p = la, locate b p = lb }
+   and the arrangement of both operands' segments and points,
+     0  iff S is non-empty and consists of arrangement vertices only (finitely many points);
+    >=1 iff S contains a point that is not a vertex;
+     2  iff S contains a point that lies on no segment of either operand and is no vertex *)
+Theorem relate_entries_characterised : forall (a b : geom) (la lb : loc),
+  is_empty a = false -> is_empty b = false -> rings_closed a -> rings_closed b ->
+  let L := canon_segs (arr_segments a ++ arr_segments b) in
+  let V := vertex_set L (canon_pts (arr_points a ++ arr_points b)) in
+  (mget (relate a b) la lb <> DF <-> exists p, locate a p = la /\ locate b p = lb) /\
+  (mget (relate a b) la lb = D0 <->
+     (exists p, locate a p = la /\ locate b p = lb) /\
+     (forall p, locate a p = la -> locate b p = lb -> is_vertex V p = true)) /\
+  (mget (relate a b) la lb = D1 \/ mget (relate a b) la lb = D2 <->
+     exists p, locate a p = la /\ locate b p = lb /\ is_vertex V p = false) /\
+  (mget (relate a b) la lb = D2 <->
+     exists p, locate a p = la /\ locate b p = lb /\ on_some_seg L p = false /\ is_vertex V p = false).
+Proof.
+  intros a b la lb Ea Eb Ra Rb. cbv zeta. rewrite (relate_nonempty a b Ea Eb).
+  exact (conj (Planar_slab.de9im_ref_sufficient a b la lb Ra Rb)
+        (conj (entry_D0_iff a b Ra Rb la lb) (conj (entry_ge_D1_iff a b Ra Rb la lb) (entry_D2_iff a b Ra Rb la lb)))).
+Qed.
+Print Assumptions relate_entries_characterised.
+
+(* Disjoint of the model is true iff the two point sets share no point of Q^2 (all pairs, empties included) *)
+Theorem disjoint_iff_no_common_point : forall (a b : geom), rings_closed a -> rings_closed b ->
+  (go_disjoint (enc_matrix (relate a b)) = RM true <-> forall p, ~ (inG a p = true /\ inG b p = true)).
+Proof. exact disjoint_iff_no_common_point_lemma. Qed.
+Print Assumptions disjoint_iff_no_common_point.
+
+(* for users of the oracle (C01, C03, C09, C15): agreement at the witnesses is agreement everywhere *)
+Theorem witnesses_decide_everywhere : forall (L : list seg) (P : list pt),
+  (forall g1 g2, covers_geom L P g1 -> covers_geom L P g2 -> rings_closed g1 -> rings_closed g2 ->
+     (forall w d, In (w, d) (witnesses L P) -> inG g1 w = inG g2 w) -> forall p, inG g1 p = inG g2 p) /\
+  (forall g1 g2, covers_geom L P g1 -> covers_geom L P g2 -> rings_closed g1 -> rings_closed g2 ->
+     (forall w d, In (w, d) (witnesses L P) -> locate g1 w = locate g2 w) -> forall p, locate g1 p = locate g2 p) /\
+  (forall (gs : list geom) (F : list bool -> bool),
+     (forall g, In g gs -> covers_geom L P g /\ rings_closed g) ->
+     (forall w d, In (w, d) (witnesses L P) -> F (map (fun g => inG g w) gs) = true) ->
+     forall p, F (map (fun g => inG g p) gs) = true).
+Proof.
+  exact (fun L P => conj (inG_agree_everywhere L P) (conj (locate_agree_everywhere L P) (pointwise_everywhere L P))).
+Qed.
+Print Assumptions witnesses_decide_everywhere.
+
+(* non-vacuity: the hypothesis rings_closed holds of the example squares, and an entry of each kind occurs *)
+Example ex_rings_closed : forall y, In y (g_polys (sq 0 0 2 2)) -> forall r, In r (poly_rings y) -> pts_closed (line_pts r) = true.
+Proof. intros y [<-|[]] r [<-|[]]. vm_compute. reflexivity. Qed.
